@@ -99,6 +99,7 @@ type srun struct {
 	bad     string
 	depth   int
 	news    int // number of objects created so far (each `new` value carries its number in ev)
+	objs    []sobj
 }
 
 func (r *srun) newObj(t string) sv {
@@ -180,7 +181,56 @@ func (r *srun) newEvent(e sevent) int {
 	return i
 }
 
-func (r *srun) recvField(fr *sframe, e ast.Expr) (string, bool) { return recvField(e, fr.recv) }
+func (r *srun) recvField(fr *sframe, e ast.Expr) (string, bool) {
+	if f, ok := recvField(e, fr.recv); ok && fr.recv != "" {
+		return f, true
+	}
+	// *ptr where ptr points at a receiver field (table-driven codecs)
+	if st, ok := e.(*ast.StarExpr); ok {
+		if !r.pure(st.X) {
+			return "", false
+		}
+		v := r.eval(fr, st.X)
+		if len(v) == 1 && v[0].k == "ptr" {
+			return v[0].f, true
+		}
+	}
+	return "", false
+}
+
+// pure: an expression whose evaluation makes no codec call (identifiers, selections, calls of table accessors)
+func (r *srun) pure(e ast.Expr) bool {
+	ok := true
+	ast.Inspect(e, func(n ast.Node) bool {
+		if c, isCall := n.(*ast.CallExpr); isCall {
+			if _, _, _, isCodec := codecCall(c); isCodec {
+				ok = false
+			}
+			if sel, isSel := c.Fun.(*ast.SelectorExpr); isSel && (sel.Sel.Name == "Encode" || sel.Sel.Name == "Decode") {
+				ok = false
+			}
+		}
+		return true
+	})
+	return ok
+}
+
+// values that need more than a few words: rows of literal tables, closures, literal lists
+type sobj struct {
+	kind  string // struct closure list
+	st    *ast.StructType
+	elts  []ast.Expr
+	fl    *ast.FuncLit
+	frame *sframe // the frame the literal was written in (closures and lazily evaluated elements see its variables)
+}
+
+func (r *srun) newSobj(o sobj) sv {
+	r.objs = append(r.objs, o)
+	return sv{k: o.kind, ev: len(r.objs) - 1}
+}
+
+func (fr *sframe) snapshot() *sframe { return &sframe{recv: fr.recv, buf: fr.buf, sc: fr.sc, named: fr.named} }
+
 
 func (r *srun) isBufExpr(fr *sframe, e ast.Expr) bool {
 	id, ok := e.(*ast.Ident)
@@ -286,24 +336,30 @@ func (r *srun) evalCall(fr *sframe, c *ast.CallExpr) []sv {
 			if !ok || scalarWidth(r.c.ftype[f]) != w || strings.HasPrefix(r.c.ftype[f], "float") {
 				return "", false
 			}
-			if _, assigned := r.fields[f]; assigned {
+			if cur, assigned := r.fields[f]; assigned && cur.k != "cks" {
 				return "", false
 			}
 			return f, true
 		}
 		if sel.Sel.Name == "WriteByte" {
 			if f, ok := unconv(c.Args[0], 1); ok {
-				i := r.newEvent(sevent{kind: "rawwrite", call: c, node: c, field: f, raw: &Op{K: "scalar", W: 1, E: "", F: f}})
+				i := r.newEvent(sevent{kind: "rawwrite", call: c, node: c, field: f, at: r.fieldVal(f), raw: &Op{K: "scalar", W: 1, E: "", F: f}})
 				return []sv{{k: "err", ev: i}}
 			}
 		}
 		if sel.Sel.Name == "Write" {
+			if mc, ok := c.Args[0].(*ast.CallExpr); ok && ident(mc.Fun) == "make" && len(mc.Args) == 2 && src(mc.Args[0]) == "[]byte" {
+				if n, ok := intLit(mc.Args[1]); ok && n > 0 {
+					i := r.newEvent(sevent{kind: "placeholder", call: c, node: c, raw: &Op{K: "scalar", W: n, E: ""}})
+					return []sv{{k: "zero"}, {k: "err", ev: i}}
+				}
+			}
 			if ac, ok := c.Args[0].(*ast.CallExpr); ok && len(ac.Args) == 2 && src(ac.Args[0]) == "nil" {
 				for _, w := range []int{2, 4, 8} {
 					for _, o := range [][2]string{{"BigEndian", "be"}, {"LittleEndian", "le"}} {
 						if src(ac.Fun) == fmt.Sprintf("binary.%s.AppendUint%d", o[0], w*8) {
 							if f, ok := unconv(ac.Args[1], w); ok {
-								i := r.newEvent(sevent{kind: "rawwrite", call: c, node: c, field: f, raw: &Op{K: "scalar", W: w, E: o[1], F: f}})
+								i := r.newEvent(sevent{kind: "rawwrite", call: c, node: c, field: f, at: r.fieldVal(f), raw: &Op{K: "scalar", W: w, E: o[1], F: f}})
 								return []sv{{k: "zero"}, {k: "err", ev: i}}
 							}
 						}
@@ -340,6 +396,27 @@ func (r *srun) evalCall(fr *sframe, c *ast.CallExpr) []sv {
 			}
 		}
 	}
+	// a closure held in a variable or in a row of a literal table
+	{
+		var fv []sv
+		switch f := c.Fun.(type) {
+		case *ast.Ident:
+			if v, ok := fr.sc.get(f.Name); ok && v.k == "closure" {
+				fv = []sv{v}
+			}
+		case *ast.SelectorExpr:
+			if id, isID := f.X.(*ast.Ident); isID {
+				if v, ok := fr.sc.get(id.Name); ok && v.k == "struct" {
+					fv = r.eval(fr, f)
+				}
+			}
+		}
+		if len(fv) == 1 && fv[0].k == "closure" {
+			o := r.objs[fv[0].ev]
+			h := &ast.FuncDecl{Name: ast.NewIdent("closure"), Type: o.fl.Type, Body: o.fl.Body}
+			return r.callFuncIn(fr, c, h, o.frame)
+		}
+	}
 	// helper(args…) / p.helper(args…): a function of the package or a method of the same type, executed in place (the buffer
 	// may be passed on, other arguments are passed by value)
 	if id, ok := c.Fun.(*ast.Ident); ok {
@@ -365,10 +442,16 @@ func (r *srun) evalCall(fr *sframe, c *ast.CallExpr) []sv {
 
 // callFunc executes the body of a helper with its parameters bound to the arguments' symbolic values
 func (r *srun) callFunc(fr *sframe, c *ast.CallExpr, h *ast.FuncDecl, recv string) []sv {
+	return r.callFuncIn(fr, c, h, &sframe{recv: recv})
+}
+
+// callFuncIn: as callFunc, inside the frame `outer` (a closure sees the variables, receiver and buffer of the frame that
+// made it; a parameter bound to the caller's receiver or buffer becomes the callee's name for it)
+func (r *srun) callFuncIn(fr *sframe, c *ast.CallExpr, h *ast.FuncDecl, outer *sframe) []sv {
 	if r.depth >= 4 {
 		r.giveUp("helper nesting")
 	}
-	nf := &sframe{recv: recv, sc: &scope{vars: map[string]sv{}}}
+	nf := &sframe{recv: outer.recv, buf: outer.buf, sc: &scope{vars: map[string]sv{}, parent: outer.sc}}
 	var pnames []string
 	if h.Type.Params != nil {
 		for _, p := range h.Type.Params.List {
@@ -386,6 +469,10 @@ func (r *srun) callFunc(fr *sframe, c *ast.CallExpr, h *ast.FuncDecl, recv strin
 	for i, a := range c.Args {
 		if r.isBufExpr(fr, a) {
 			nf.buf = pnames[i]
+			continue
+		}
+		if id, ok := a.(*ast.Ident); ok && id.Name == fr.recv && fr.recv != "" {
+			nf.recv = pnames[i] // the receiver passed on (accessor tables: func(p *T) *string { return &p.F })
 			continue
 		}
 		v := r.eval(fr, a)
@@ -554,12 +641,14 @@ func (r *srun) frameCall(fr *sframe, c *ast.CallExpr) ([]sv, bool) {
 		if order == "" || w == 0 || !ok || hi == nil {
 			r.giveUp("patch %s", src(c))
 		}
-		if hi.ev != lo.ev || hi.off-lo.off != w {
-			r.giveUp("patch window %s", src(c))
-		}
 		lo = r.normMark(lo)
 		if lo.off != 0 {
 			r.giveUp("patch position %s", src(c))
+		}
+		// the window is exactly the w bytes at lo: written as lo+w, or as the mark taken after a w-byte call made at lo
+		if h := r.normMark(sv{k: "mark", ev: hi.ev, off: hi.off}); !(h.ev == lo.ev && h.off == w) &&
+			!(h.ev == lo.ev+1 && h.off == 0 && lo.ev < len(r.events) && r.eventWidth(r.events[lo.ev]) == w) {
+			r.giveUp("patch window %s", src(c))
 		}
 		v := r.eval(fr, c.Args[1])
 		if len(v) != 1 || v[0].k != "span" {
@@ -630,14 +719,66 @@ func (r *srun) eval(fr *sframe, e ast.Expr) []sv {
 		if n, ok := intLit(x); ok {
 			return []sv{{k: "const", off: n}}
 		}
+		if init, ok := r.c.pi.vars[x.Name]; ok {
+			// a package-level table: its initialiser, evaluated outside any method
+			return r.eval(&sframe{sc: &scope{vars: map[string]sv{}}}, init)
+		}
 		r.giveUp("identifier %s", x.Name)
 	case *ast.SelectorExpr:
 		if f, ok := r.recvField(fr, x); ok {
 			return []sv{r.fieldVal(f)}
 		}
+		if id, isID := x.X.(*ast.Ident); isID {
+			if v, ok := fr.sc.get(id.Name); ok && v.k == "struct" {
+				o := r.objs[v.ev]
+				idx, i := -1, 0
+				for _, f := range o.st.Fields.List {
+					for _, n := range f.Names {
+						if n.Name == x.Sel.Name {
+							idx = i
+						}
+						i++
+					}
+				}
+				for j, el := range o.elts {
+					if kv, isKV := el.(*ast.KeyValueExpr); isKV {
+						if ident(kv.Key) == x.Sel.Name {
+							return r.eval(o.frame, kv.Value)
+						}
+					} else if j == idx {
+						return r.eval(o.frame, el)
+					}
+				}
+			}
+		}
 		r.giveUp("selector %s", src(x))
 	case *ast.CallExpr:
 		return r.evalCall(fr, x)
+	case *ast.StarExpr:
+		if f, ok := r.recvField(fr, x); ok {
+			return []sv{r.fieldVal(f)}
+		}
+		r.giveUp("dereference %s", src(x))
+	case *ast.FuncLit:
+		return []sv{r.newSobj(sobj{kind: "closure", fl: x, frame: fr.snapshot()})}
+	case *ast.CompositeLit:
+		switch t := x.Type.(type) {
+		case *ast.ArrayType:
+			var elts []ast.Expr
+			for _, el := range x.Elts {
+				if _, isKV := el.(*ast.KeyValueExpr); isKV {
+					r.giveUp("keyed list literal")
+				}
+				if inner, ok := el.(*ast.CompositeLit); ok && inner.Type == nil {
+					el = &ast.CompositeLit{Type: t.Elt, Elts: inner.Elts, Lbrace: inner.Lbrace, Rbrace: inner.Rbrace}
+				}
+				elts = append(elts, el)
+			}
+			return []sv{r.newSobj(sobj{kind: "list", elts: elts, frame: fr.snapshot()})}
+		case *ast.StructType:
+			return []sv{r.newSobj(sobj{kind: "struct", st: t, elts: x.Elts, frame: fr.snapshot()})}
+		}
+		r.giveUp("literal %s", src(x))
 	case *ast.TypeAssertExpr:
 		if x.Type != nil {
 			v := r.eval(fr, x.X)
@@ -652,6 +793,19 @@ func (r *srun) eval(fr *sframe, e ast.Expr) []sv {
 		if t, ok := newStruct(x); ok {
 			if _, isTy := r.c.pi.structs[t]; isTy {
 				return []sv{r.newObj(t)}
+			}
+		}
+		if x.Op == token.AND {
+			if f, ok := recvField(x.X, fr.recv); ok && fr.recv != "" {
+				return []sv{{k: "ptr", f: f}}
+			}
+		}
+		if x.Op == token.SUB || x.Op == token.ADD {
+			if v := r.eval(fr, x.X); len(v) == 1 && v[0].k == "const" {
+				if x.Op == token.SUB {
+					v[0].off = -v[0].off
+				}
+				return v
 			}
 		}
 		r.giveUp("expression %s", src(x))
@@ -717,6 +871,12 @@ func (r *srun) assign(fr *sframe, lhs ast.Expr, v sv, define bool) {
 		}
 		return
 	case *ast.SelectorExpr:
+		if f, ok := r.recvField(fr, x); ok && !define {
+			r.fields[f] = v
+			r.assigns = append(r.assigns, f)
+			return
+		}
+	case *ast.StarExpr:
 		if f, ok := r.recvField(fr, x); ok && !define {
 			r.fields[f] = v
 			r.assigns = append(r.assigns, f)
@@ -800,6 +960,35 @@ func (r *srun) exec(fr *sframe, stmts []ast.Stmt) (returned bool, vals []sv) {
 			fr.pop()
 			if ret {
 				return true, v
+			}
+		case *ast.RangeStmt:
+			// a loop over a literal table is its body once per row
+			if x.Tok != token.DEFINE || x.Value == nil || ident(x.Value) == "" {
+				r.giveUp("loop %s", src(x))
+			}
+			lv := r.eval(fr, x.X)
+			if len(lv) != 1 || lv[0].k != "list" {
+				r.giveUp("loop over %s", src(x.X))
+			}
+			o := r.objs[lv[0].ev]
+			if len(o.elts) > 64 {
+				r.giveUp("long table")
+			}
+			for i, el := range o.elts {
+				ev := r.eval(o.frame, el)
+				if len(ev) != 1 {
+					r.giveUp("table row %s", src(el))
+				}
+				fr.push()
+				fr.sc.vars[ident(x.Value)] = ev[0]
+				if k := ident(x.Key); k != "" && k != "_" {
+					fr.sc.vars[k] = sv{k: "const", off: i}
+				}
+				ret, v := r.exec(fr, x.Body.List)
+				fr.pop()
+				if ret {
+					return true, v
+				}
 			}
 		case *ast.SwitchStmt:
 			// tagless switch = if-chain; `switch X { case nil: … default: … }` tests X against nil
@@ -1273,11 +1462,18 @@ func (c *ctx) symFrame(fd *ast.FuncDecl) (*Frame, string) {
 	fr := &Frame{}
 	evs := ref.events
 	i := 0
-	for ; i < len(evs) && evs[i].kind == "write"; i++ {
-		e := evs[i]
+	scalarOf := func(e sevent) (Op, bool) {
+		if e.kind == "rawwrite" {
+			return *e.raw, e.raw.E != ""
+		}
 		name, targs, args, _ := codecCall(e.call)
 		op, ok := c.primOp(true, name, targs, args[2:], c.ftype[e.field])
-		if !ok || op.K != "scalar" || e.at.k != "field" {
+		return op, ok && op.K == "scalar"
+	}
+	for ; i < len(evs) && (evs[i].kind == "write" || evs[i].kind == "rawwrite"); i++ {
+		e := evs[i]
+		op, ok := scalarOf(e)
+		if !ok || e.at.k != "field" {
 			return nil, "header statement: " + src(e.node)
 		}
 		op.F = e.field
@@ -1295,6 +1491,9 @@ func (c *ctx) symFrame(fd *ast.FuncDecl) (*Frame, string) {
 		return nil, "placeholder width"
 	}
 	fr.LenW, fr.E = 4, ph.raw.E
+	if fr.E == "" {
+		fr.E = patch.raw.E // zero bytes have no byte order: the patch decides
+	}
 	if c.ftype[body.field] != "codec.BinaryCodec" || c.fidx[body.field] != nh+1 || body.at.k != "field" || guard[body.field] != "skip" {
 		return nil, "body statement: " + src(body.node)
 	}
@@ -1323,7 +1522,7 @@ func (c *ctx) symFrame(fd *ast.FuncDecl) (*Frame, string) {
 		if len(c.fields) != nh+2 {
 			return nil, "fields after the body are not written"
 		}
-	case len(rest) == 2 && rest[0].kind == "calc" && rest[1].kind == "write":
+	case len(rest) == 2 && rest[0].kind == "calc" && (rest[1].kind == "write" || rest[1].kind == "rawwrite"):
 		calc, tr := rest[0], rest[1]
 		if calc.at.k != "mark" || calc.at.ev != 0 || calc.at.off != 0 {
 			return nil, "checksum does not start at the frame's first byte: " + src(calc.node)
@@ -1335,9 +1534,8 @@ func (c *ctx) symFrame(fd *ast.FuncDecl) (*Frame, string) {
 		if tr.at.k != "cks" || tr.at.ev != i+3 {
 			return nil, "trailer is not the computed checksum: " + src(tr.node)
 		}
-		name, targs, args, _ := codecCall(tr.call)
-		top, ok := c.primOp(true, name, targs, args[2:], c.ftype[cf])
-		if !ok || top.K != "scalar" || top.E != fr.E {
+		top, ok := scalarOf(tr)
+		if !ok || top.E != fr.E {
 			return nil, "checksum trailer: " + src(tr.node)
 		}
 		if calc.key != c.ftype[cf] {
